@@ -63,3 +63,17 @@ Proof.
   - pose proof (flat_map_nil _ _ H _ H0) as X. cbv beta iota in X. apply guard_nil in X. lia.
 Qed.
 Print Assumptions C12_checker_sound.
+
+(* Part 2: universal, over the generator model (schema layer included), for EVERY input tree the model
+   accepts: in the emitted system address map every start bound is below 2^addr_width and every end
+   bound is at most 2^addr_width.  Hence a start literal always holds its value in the address width,
+   and the ONLY end literal that does not is an exclusive end bound equal to 2^addr_width exactly --
+   the known finding C12:address-literal:end=2^addr_width (such a range must be accepted, C01). *)
+From FV Require Import Desc Routing Emit LiteralProofs.
+Theorem C12_model_address_literals : forall sp v n, run_yaml sp v = Ok n ->
+  forall s, In s (n_sam n) ->
+    sr_start s < sr_end s /\ sr_start s < 2 ^ n_aw n /\ (sr_end s < 2 ^ n_aw n \/ sr_end s = 2 ^ n_aw n).
+Proof.
+  intros sp v n H s Hs. pose proof (sam_bounds_within_aw sp v n H s Hs). lia.
+Qed.
+Print Assumptions C12_model_address_literals.
